@@ -34,7 +34,7 @@ ASSUMPTIONS = [
     "container objects (object streams, xref streams) are defined objects and expected in get_objids()",
     "damage = startxref / xref keyword / subsection header / entry format / entry offset; trailer damage is outside 'cross-reference table'",
 ]
-PROBES = ["free entry for a never-defined number", "cross-reference stream update without entries", "form:table", "form:stream", "form:hybrid", "packed objects", "override of packed by direct", "override of direct by packed", "multi-range Index", "nested getobj for indirect Length", "eviction happened", "caching off", "startxref boundary placed", "crlf eol", "cr-only eol", "bytes after %%EOF", "repository sample", "zero-width type field", "hybrid with free entries"]
+PROBES = ["chain of 260 to 1000 updates", "chain of more than 1000 updates", "free entry for a never-defined number", "cross-reference stream update without entries", "form:table", "form:stream", "form:hybrid", "packed objects", "override of packed by direct", "override of direct by packed", "multi-range Index", "nested getobj for indirect Length", "eviction happened", "caching off", "startxref boundary placed", "crlf eol", "cr-only eol", "bytes after %%EOF", "repository sample", "zero-width type field", "hybrid with free entries"]
 TIERS = {
     "quick": {"batches": 16, "runs": 1200, "budget_s": 45},
     "thorough": {"batches": 128, "runs": 2500, "budget_s": 900},
@@ -636,6 +636,53 @@ def run_sample(t, ctx, devs):
     return "; ".join(cfgs), data
 
 
+def run_long_chain(t, ctx):
+    """Hundreds to over a thousand incremental updates, each redefining a few of a handful of objects, in classic and
+    stream form: the newest definition of every object still wins, and none is lost."""
+    n = t.pick([260, 300, 520, 1100, 1500], "chain.n")
+    ctx.probe("chain of %s updates" % ("more than 1000" if n > 1000 else "260 to 1000"))
+    fw = FileWriter(tape=None, wild=False)
+    model = {1: {b"Type": Name(b"Catalog"), b"Marker": 0}}
+    ids = [3, 4, 5, 8]
+    offs = {1: fw.add_object(1, model[1])}
+    for i in ids:
+        model[i] = {b"V": 0, b"Id": i}
+        offs[i] = fw.add_object(i, model[i])
+    prev = fw.xref_table({0: (None, 65535), **{i: (o, 0) for i, o in offs.items()}}, {b"Size": 9, b"Root": Ref(1, 0)})
+    nid = 100
+    forms = t.pick([("table",), ("stream",), ("table", "stream"), ("table", "table", "stream")], "chain.forms")
+    for r in range(1, n + 1):
+        chosen = [i for i in ids if (r * 7 + i) % 3 == 0] or [ids[r % len(ids)]]
+        ent = {}
+        for i in chosen:
+            model[i] = {b"V": r, b"Id": i}
+            ent[i] = fw.add_object(i, model[i])
+        tr = {b"Size": nid + 2, b"Root": Ref(1, 0), b"Prev": prev}
+        if forms[r % len(forms)] == "table":
+            prev = fw.xref_table({i: (o, 0) for i, o in ent.items()}, tr)
+        else:
+            nid += 1
+            prev = fw.xref_stream(nid, {i: ("n", o, 0) for i, o in ent.items()}, tr, flt=bool(r % 2))
+    data = fw.getvalue()
+    devs = []
+    for caching in (True, False):
+        try:
+            doc = PDFDocument(PDFParser(BytesIO(data)), caching=caching)
+            for i in [1] + ids:
+                got = doc.getobj(i)
+                mism = []
+                match(model[i], got, {}, "obj%d" % i, mism)
+                for path, k, detail, known in mism:
+                    devs.append(Dev("C02:getobj:wrong-%s" % k, "at %s: %s; after %d incremental updates (forms %s) caching=%s" % (path, detail, n, "/".join(forms), caching)))
+        except Exception as e:
+            devs.append(Dev("C02:longchain:raise:%s@%s" % (type(e).__name__, where(e)), "%r; %d incremental updates (forms %s) caching=%s" % (e, n, "/".join(forms), caching)))
+    seen = {}
+    for d in devs:
+        seen.setdefault(d.sig, d)
+    t.note((n, forms))
+    return Outcome(list(seen.values()), scen=repr((n, forms)), nontrivial=True, sample={"mode": "long-chain", "updates": n, "forms": forms, "file_bytes": len(data)})
+
+
 def run(tape, ctx, item=None):
     t = tape
     devs = []
@@ -646,6 +693,8 @@ def run(tape, ctx, item=None):
             seen.setdefault(d.sig, d)
         tape.note(cfg)
         return Outcome(list(seen.values()), scen=repr((len(data), cfg)), nontrivial=True, sample={"mode": "sample", "config": cfg})
+    if t.coin(1, 300, "mode.longchain"):
+        return run_long_chain(t, ctx)
     if t.coin(15, 100, "mode.damage"):
         cfg, bad = run_damage(t, ctx, devs)
         seen = {}
